@@ -19,7 +19,8 @@ from sdc11073.xml_types.basetypes import XMLTypeBase
 
 
 class TS:
-    """Timestamp in seconds; equal if closer than 1 ms (+ float slack)."""
+    """Timestamp in seconds; equal if closer than half a millisecond (+ float slack): the wire carries whole milliseconds,
+    rounded to nearest, so a value and its wire form differ by at most 0.5 ms."""
 
     __slots__ = ('v',)
 
@@ -27,7 +28,7 @@ class TS:
         self.v = float(v)
 
     def __eq__(self, other):
-        return isinstance(other, TS) and abs(self.v - other.v) < 0.0010005
+        return isinstance(other, TS) and abs(self.v - other.v) < 0.000501
 
     def __ne__(self, other):
         return not self == other
